@@ -158,7 +158,22 @@ def c16(cx):
                      "parsed by the real reader; all calibration files of <=3 lines over 8 line classes")
 
 
-PLANS = {"C01": c01, "C02": c02, "C03": c03, "C04": c04, "C06": c06, "C07": c07, "C16": c16, "C18": c18, "C19": c19, "C20": c20}
+def c09(cx):
+    cx.assumptions += ["the energy file parse itself is C16's subject: here the rows are well formed and the abstract records are what that rule gives",
+                       "datagrams are captured at the client's send hook (before the UDP write); the device's own signature is judged with the verifier",
+                       "readings that do not fit 32 signed bits are stored truncated (documented in the code): they appear with fit=false and are "
+                       "only emitted once in these histories (retransmission of such a reading is the known finding listed under C08)"]
+    q = cx.tier == QUICK
+    cx.mc("MC_History", "MC_History.cfg", {"MaxEdits": 2 if q else 3, "Unfit": "FALSE"},
+          note="file rewrites over 3 slots x 5 values (<=2 records), loop iterations, restarts and retransmissions anywhere; origin 2 so slot 1 is out of range")
+    r = cx.drv_ok("history")
+    cx.validate("HistoryStore", "HistoryStore.cfg", r["trace"] + ".store",
+                what="real history store on a grid of timeslots (before/at origin, +2^30-1, +2^30, +2^31, 2^32-1) x values, every grid key re-read after every save")
+    cx.validate("Trace_Client", "Trace_C09.cfg", r["trace"],
+                what="report loop single-stepped over evolving energy files (append, rewrite, duplicate with other value, reorder, drop) with restarts")
+
+
+PLANS = {"C01": c01, "C02": c02, "C03": c03, "C04": c04, "C06": c06, "C07": c07, "C09": c09, "C16": c16, "C18": c18, "C19": c19, "C20": c20}
 
 
 def replay(cx, path):
